@@ -17,7 +17,7 @@ use std::sync::Arc;
 use std::time::Duration;
 
 fn log_name(tag: &str) -> String {
-    format!("verif-{}-{:?}", tag, std::thread::current().id()).replace(['(', ')'], "")
+    chan::scratch_log_name(tag)
 }
 
 struct LogFileGuard(Option<String>);
